@@ -368,7 +368,9 @@ func (tc *TypeChecker) ValidateObjectAgainstTypeDef(obj map[string]interface{}, 
 	// Check required fields (fields with defaults are not required)
 	for _, field := range typeDef.Fields {
 		if field.Required && field.Default == nil {
-			if _, exists := obj[field.Name]; !exists {
+			// Required means present and non-null: CheckType accepts null for
+			// every type, so an explicit null must be refused here.
+			if value, exists := obj[field.Name]; !exists || value == nil {
 				return fmt.Errorf("missing required field: %s", field.Name)
 			}
 		}
